@@ -46,7 +46,7 @@ def _check(sql, expected, mask=False):
     return ''
 
 
-def one_ref(kind, composite, s1, s2, selfref, K, mode='names', upd_i=3, dele_i=4, braces=False):
+def one_ref(kind, composite, s1, s2, selfref, K, mode='names', upd_i=3, dele_i=4, braces=False, samename=False):
     """one reference between table a (left) and b (right) [or a and a]
     mode 'names': inline / named symbolic, names are holes, actions fixed by the driver
     mode 'actions': inline and both actions symbolic, names concrete (the two groups do not interact in the renderer)"""
@@ -74,9 +74,10 @@ def one_ref(kind, composite, s1, s2, selfref, K, mode='names', upd_i=3, dele_i=4
             sb = s1
             bname = 'a'
         else:
-            tb = Table('b', schema=s2, columns=[Column('idk', 'int', pk=True), Column('zed', 'text')])
+            # samename: the two tables share the bare name and differ only by schema
+            bname = 'a' if samename else 'b'
+            tb = Table(bname, schema=s2, columns=[Column('idk', 'int', pk=True), Column('zed', 'text')])
             sb = s2
-            bname = 'b'
         db = Database()
         db.add(ta)
         if not selfref:
@@ -243,6 +244,7 @@ def instances(tier):
         for nm, p in base:
             add(f'one/{kn}/{nm}/names/K{K}', 'one_ref', dict(p, kind=kind, K=K, mode='names'), T)
         add(f'one/{kn}/single/public-s/braces/K1', 'one_ref', dict(base[0][1], kind=kind, K=1, mode='names', braces=True), T)
+        add(f'one/{kn}/single/public-s/samename/K{K}', 'one_ref', dict(base[0][1], kind=kind, K=K, mode='names', samename=True), T)
         add(f'one/{kn}/single/public-s/actions', 'one_ref', dict(base[0][1], kind=kind, K=K, mode='actions'), T)
         add(f'one/{kn}/composite/s-public/actions', 'one_ref', dict(base[1][1], kind=kind, K=K, mode='actions'), T)
     for k1, k2 in (('>', '<'), ('<', '-'), ('-', '>'), ('<', '<')):
